@@ -287,9 +287,11 @@ func checkC09(c *gen.WPlusCase) Outcome {
 	out := Outcome{}
 	fc := &c.FlattenCase
 	inW := len(c.Kinds) == 0
-	if msg := selfCheck(fc, inW); msg != "" {
-		out.Harness = msg
-		return out
+	if c.RawRoot == "" {
+		if msg := selfCheck(fc, inW); msg != "" {
+			out.Harness = msg
+			return out
+		}
 	}
 	out.Labels = append(out.Labels, "opts:"+fc.Opts.String())
 	unresolvable := false
@@ -301,7 +303,11 @@ func checkC09(c *gen.WPlusCase) Outcome {
 		out.Labels = append(out.Labels, "in-W")
 	}
 	// (a) fault-free run, with New and Schema probed on every schema position first
-	r := runFlatten(fc, docsText(fc, 0), func(req *wproto.Request) { req.Probe = true })
+	docs := docsText(fc, 0)
+	if c.RawRoot != "" {
+		docs[fc.RootPath()] = c.RawRoot
+	}
+	r := runFlatten(fc, docs, func(req *wproto.Request) { req.Probe = true })
 	if r.harness != "" {
 		out.Harness = r.harness
 		return out
